@@ -13,3 +13,7 @@ G = ['crash points / kill signals between calls are not expressible in a sequent
      'backup_copy_file returns EX_OK only if the backup holds exactly the original bytes (its own contract, not yet enforced: it ignores the result of fclose on the backup file)',
      'formatting failures exit inside uncrustify_file, i.e. before the rename block (uncrustify_file_contract: may not return)',
      'the --replace loop over several files in main()/process_source_list is not covered']
+
+sys.path.insert(0, os.path.join(os.path.dirname(os.path.abspath(__file__)), '..', '..', 'tools'))
+import replay_lib  # noqa: E402
+REPLAY = replay_lib.make_replay(replay_lib.scenario_failed_close, replay_lib.scenario_failed_backup, replay_lib.scenario_md5_after_rename)
